@@ -795,24 +795,3 @@ Proof.
   split; [rewrite img_len_set_length, El, Hl, N2Nat.id; reflexivity|].
   apply dict_get_set_same.
 Qed.
-
-(* hence a decoded inline image whose dictionary values are well-formed and in normal form (what
-   the object parser returns, except reals spelled non-canonically) is in the domain of C14_rt and
-   is its own normal form: encoding it and decoding again returns exactly the same operation *)
-Theorem decoded_image_reencodes fuel s d c r :
-  inline_image fuel s = POk ([OStream d c], bs "BI") r ->
-  Forall (fun kv => obj_wf (snd kv)) d -> norm_dict d = d -> (nest (OStream d c) <= MAX_DEPTH)%nat ->
-  decode_content (encode_content [mkop "BI" [OStream d c]]) = DecOk [mkop "BI" [OStream d c]].
-Proof.
-  intros H Hw Hn Hd. destruct (inline_image_sound _ _ _ _ _ H) as [_ [d' [c' [E [Hnd [Hl Hg]]]]]].
-  inversion E; subst d' c'.
-  assert (Hdom : op_dom (mkop "BI" [OStream d c])).
-  { split; [reflexivity|]. right. split; [reflexivity|]. exists d, c. rewrite Hn. auto. }
-  assert (Hk : known_class (mkop "BI" [OStream d c]) = false).
-  { unfold known_class, too_deep_op. cbn [mkop op_operator op_operands existsb orb andb].
-    destruct (Nat.ltb MAX_DEPTH (nest (OStream d c))) eqn:E2; [apply Nat.ltb_lt in E2; lia|reflexivity]. }
-  rewrite (content_rt_dom [mkop "BI" [OStream d c]])
-    by (apply Forall_cons; [assumption|apply Forall_nil]).
-  unfold norm_op, mkop. cbn [map op_operator op_operands norm_operand]. rewrite Hn. unfold stream_new.
-  rewrite (dict_set_same d K_Length _ Hg). reflexivity.
-Qed.
